@@ -3,6 +3,9 @@ import json, os
 VERIF = os.path.dirname(os.path.dirname(os.path.abspath(__file__)))
 STD_NOTE = "Trusted: Lean 4.33 kernel; axioms propext/Classical.choice/Quot.sound at most (audited by #print axioms on every run; no sorry/native_decide); "
 CHECKS = {
+ "C08": ("proof", "Lean 4 model over Q of the parameter loop of _get_wyckoff_sets (reading rule and first tolerance translated from the AST): params_sound for every table/atoms/cell/tolerance (accepted parameters reproduce an atom and every e_k(W)+t_c is matched), repSolvable_all by kernel evaluation over all 1 731 positions with the rule the source uses now, wrap range, flag_iff. Correspondence: synthetic complete/displaced/incomplete orbits through the real _get_wyckoff_sets; end-to-end table-built crystals.",
+         STD_NOTE + "translators gen_tables/gen_wyckoff_rule; completeness for exact orbits is covered by repSolvable_all + act_add_int + the correspondence on complete orbits, not by one end-to-end theorem; float evaluation away from tolerance boundaries.",
+         "Lean 4 proof (model soundness + kernel-checked table predicate) + correspondence", "DESIGN.md §6 C08"),
  "C12": ("proof", "Lean 4: the five centring matrices are translated from the AST of _get_primitive_system and proved (decide +kernel over all 230 groups) to be bases of Z^3 + the group's centring translations with determinant 1/m (primitivity, volume ratio for every cell by volume_ratio); np.unique first-index selection modelled and the (letter, element) count ratio proved for all lists by induction. Correspondence drives _get_primitive_system with synthetic systems; end-to-end crystals of every centring type with an independent spglib run on the primitive system.",
          STD_NOTE + "tools/gen_centring.py, tools/gen_tables.py; hypotheses S2/S3 about spglib's mappings (each primitive label exactly m times, equal label => equal class) are monitored end to end, not proved.",
          "Lean 4 proof (kernel-checked centring lattices + list induction) + correspondence", "DESIGN.md §6 C12"),
